@@ -89,7 +89,7 @@ fn layout(c: &Case) -> Layout {
     Layout { recs, offs, spans, wire: wire_bytes, need: need + 13 }
 }
 
-fn test(c: &Case) -> TestResult {
+pub fn test(c: &Case) -> TestResult {
     let l = layout(c);
     let cfg = syncdrv::config((c.buf as usize).max(l.need), c.max_conns as usize);
     let mut parser = request::Parser::new(&cfg);
@@ -158,10 +158,10 @@ fn test(c: &Case) -> TestResult {
                                 if !d.make_room(&truth)? {
                                     unstick_some(&mut d, &sm.order, &truth)?;
                                 }
-                                d.parse(((*n).max(1) as usize).saturating_mul(mult), dest.map(usize::from), &truth)?;
+                                d.parse(((*n).max(1) as usize).saturating_mul(mult), dest.map(|d| d as usize), &truth)?;
                             },
                             Act::Parse0 { dest } => {
-                                d.parse(0, dest.map(usize::from), &truth)?;
+                                d.parse(0, dest.map(|d| d as usize), &truth)?;
                             },
                             Act::ConsumeStream(n) => d.consume_stream(*n as usize, &truth)?,
                             Act::Compress => d.compress(&truth)?,
